@@ -394,6 +394,12 @@ impl DistinguishedName {
 				_ => return Err(Error::CouldNotParseCertificate),
 			};
 
+			if dn.get(&dn_type).is_some() {
+				// A `DistinguishedName` holds one value per attribute type: a name that
+				// repeats a type (e.g. DC=example,DC=com) can't be represented, and
+				// silently dropping an attribute would change the name.
+				return Err(Error::CouldNotParseCertificate);
+			}
 			dn.push(dn_type, dn_value);
 		}
 		Ok(dn)
